@@ -141,6 +141,16 @@ pub struct RunOpts {
 /// Run a tracer on the current thread as tracer `idx` of `world`.
 pub fn run_tracer(world: &Arc<World>, idx: usize, tracer: &Tracer, opts: &RunOpts) -> RunResult {
     let guard = world.attach(idx);
+    // virtual-time budget: a round lasts at most max-round-duration plus one read timeout, so a
+    // tracer limited to n rounds that is still running after three times that (plus 2 s for the
+    // set-up) is not going to stop; it is stopped by failing its socket calls (see World)
+    if let Some(n) = tracer.max_rounds() {
+        let per = ns(tracer.max_round_duration()) + ns(tracer.read_timeout()) + 1_000_000;
+        let budget = 2_000_000_000 + (n.0.get() as u64 + 1).saturating_mul(per).saturating_mul(3);
+        let mut w = world.inner.lock().unwrap();
+        let d = world.clock.peek().saturating_add(budget);
+        w.virtual_deadline = Some(w.virtual_deadline.map_or(d, |x| x.max(d)));
+    }
     let rounds: Mutex<Vec<PubRound>> = Mutex::new(Vec::new());
     let res = tracer.run_with(|round| {
         let t_publish = world.clock.tick();
